@@ -231,6 +231,11 @@ def check_detection(ctx, model, tup, cov):
         if (got > 0) != expected_on:
             ctx.violations.append({"signature": {"class": "tmux-detection", "site": "detect_tmux"},
                                    "what": f"tmux auto-detection {'on' if got else 'off'} for TMUX={tm!r} TERM={te!r}", "case": {"kind": "detect_terminal", **case}})
+        elif expected_on and layers >= 1 and got != layers:
+            # n layers were configured (nested tmux) and tmux is indeed there: detection confirms, it does not reconfigure;
+            # commands sent afterwards must still be wrapped n times
+            ctx.violations.append({"signature": {"class": "configured-layers-lost", "site": "detect_tmux"},
+                                   "what": f"{layers} tmux layers were configured; after detect_tmux() inside tmux (TMUX={tm!r} TERM={te!r}) commands are wrapped {got} times", "case": {"kind": "detect_terminal", **case}})
         if int(rep) != got:
             ctx.corr_breaks.append({"what": "detect_tmux differs from Model.detect_terminal", "case": case, "impl": got, "model": rep})
 
